@@ -346,87 +346,25 @@ def translate_place(fn, du, call, inner_place):
     return {"l": q["l"], "p": list(q["p"]) + list(inner_place["p"][1:])}
 
 
-INSTR = "instruction::Instruction"
-
-
 def opcode_switch(F):
-    """The opcode switch of the interpreter, found by what it is - the largest switch on the discriminant of an Instruction
-    in the vm module - wherever it lives: (function, block, {variant: target block}).  (Same search as rules.c10.run_dispatch,
-    without the demand that the loop is in the same function.)"""
-    variants = F.adt(INSTR)["variants"]
-    by_discr = {v["discr"]: v["name"] for v in variants}
-    best, fn = None, None
-    for cand in F.fns:
-        if not cand.mir or cand.is_closure or not cand.path.startswith("vm::"):
-            continue
-        for bi, b in enumerate(cand.blocks):
-            t = b["term"]
-            if t["k"] != "switch" or len(t["targets"]) < 20:
-                continue
-            loc = op_local(t["discr"])
-            if loc is None:
-                continue
-            for st in b["stmts"]:
-                if st["k"] == "assign" and st["place"]["l"] == loc and st["rv"]["k"] == "discr" and short(st["rv"]["adt"]) == INSTR:
-                    if best is None or len(t["targets"]) > len(best[1]["targets"]):
-                        best, fn = (bi, t), cand
-    if best is None:
-        raise AnchorMissing("opcode switch (interpreter loop) in the vm module")
-    bi, t = best
-    targets = {by_discr[val]: tb for val, tb in t["targets"] if val in by_discr}
-    missing = [v["name"] for v in variants if v["name"] not in targets]
-    if len(missing) == 1 and fn.blocks[t["otherwise"]]["term"]["k"] != "unreachable":
-        targets[missing[0]] = t["otherwise"]
-    return fn, bi, targets
-
-
-def _enclosing_header(fn, sites):
-    """innermost loop header of fn that dominates every block in sites, or None"""
-    cfg = fn.cfg
-    hs = [h for (_a, h) in cfg.back_edges() if all(cfg.dominates(h, b) for b in sites)]
-    return max(hs, key=lambda h: len(cfg.dom[h])) if hs else None
+    """The opcode switch of the interpreter wherever it lives: (function, block, {variant: target block}).
+    (kept as an alias: the implementation moved to rules.c10)"""
+    from rules.c10 import opcode_switch as _impl
+    return _impl(F)
 
 
 def run_dispatch2(F):
     """The interpreter loop, also when the opcode switch lives in a private function that the loop calls once per iteration
-    (driver loop + `execute_instruction`). Returns a dict:
+    (driver loop + `execute_instruction`): alias of rules.c10.dispatch_info (the implementation moved there). Dict:
        fn       the function that holds the dispatch loop (the driver)
        sites    the blocks of fn where an instruction is dispatched: the opcode switch itself, or the call(s) of the function
                 through which the opcode switch is reached
        header   the loop header in fn
-       switch_fn, switch_block, targets   the opcode switch, as rules.c10.run_dispatch reports it
+       switch_fn, switch_block, targets   the opcode switch
        chain    [fn, .., switch_fn]   the functions from the loop down to the switch
        stray    [(function, line)] calls of a chain member from outside the loop chain: dispatches that bypass the loop"""
-    from rules.c10 import run_dispatch
-    try:
-        fn, sw, targets, header = run_dispatch(F)
-        return {"fn": fn, "sites": [sw], "header": header, "switch_fn": fn, "switch_block": sw, "targets": targets, "chain": [fn], "stray": []}
-    except AnchorMissing:
-        pass
-    sfn, sw, targets = opcode_switch(F)
-    cur, sites, chain, stray = sfn, [sw], [sfn], []
-    for _ in range(3):
-        header = _enclosing_header(cur, sites)
-        if header is not None:
-            return {"fn": cur, "sites": sites, "header": header, "switch_fn": sfn, "switch_block": sw, "targets": targets, "chain": chain, "stray": stray}
-        callers = []
-        for g in F.fns:
-            if not g.mir or g is cur:
-                continue
-            bs = [bi for bi, t in mu.calls(g) if cur.short in callee_names(t["func"])]
-            if bs:
-                callers.append((g, bs))
-        looping = [(g, bs) for g, bs in callers if not g.is_closure and _enclosing_header(g, bs) is not None]
-        if len(looping) == 1:
-            pick = looping[0]
-        elif len(callers) == 1 and not callers[0][0].is_closure:
-            pick = callers[0]
-        else:
-            break
-        stray.extend((g.short, g.blocks[bs[0]]["term"].get("ln")) for g, bs in callers if g is not pick[0])
-        cur, sites = pick
-        chain.insert(0, cur)
-    raise AnchorMissing("dispatch loop header of the interpreter loop")
+    from rules.c10 import dispatch_info
+    return dispatch_info(F)
 
 
 def find_budget(F):
@@ -713,6 +651,95 @@ def synced_copy(F, fn, place, field, info):
     return res
 
 
+def budget_stores(f, fname):
+    """stores into the field Vm.<fname> in f: [(block, stmt, kind)] with kind
+       'init'   the Vm is a value the function owns (under construction), not one it reaches through a reference
+       'reset'  the value stored is (a copy of) the field max_instr of the same Vm
+       'other'  anything else (a decrement, a constant, a computed value)"""
+    out = []
+    du = None
+    for bi, b in enumerate(f.blocks):
+        for st in b["stmts"]:
+            if st["k"] != "assign":
+                continue
+            pl = st["place"]
+            idx = [n for n, e in enumerate(pl["p"]) if e["k"] == "field" and e["name"] == fname and short(e.get("owner", "")) == "vm::Vm"]
+            if not idx:
+                continue
+            du = du or DefUse(f)
+            base = pl["p"][:idx[0]]
+            kind = "other"
+            if not any(e["k"] == "deref" for e in base):
+                kind = "init"
+            elif st["rv"]["k"] == "use":
+                q = _through_copy(du, op_place(st["rv"]["op"]))
+                if q is not None and q["l"] == pl["l"] and len(q["p"]) == len(base) + 1 and [e["k"] for e in q["p"][:-1]] == [e["k"] for e in base] \
+                        and q["p"][-1]["k"] == "field" and q["p"][-1]["name"] == "max_instr" and short(q["p"][-1].get("owner", "")) == "vm::Vm":
+                    kind = "reset"
+            out.append((bi, st, kind))
+    return out
+
+
+def functions_running_inside_the_loop(F, loop_fn):
+    """Crate functions that can execute while the interpreter loop is active: everything the loop reaches in the call graph;
+    and, because the loop calls host functions through pointers / trait objects, every crate function whose address is taken
+    somewhere (the crate's own natives are registered that way) with everything those reach."""
+    from cao.facts import CallGraph, rvalue_operands
+    cached = F.__dict__.get("_c03_in_run")
+    if cached is not None and cached[0] == loop_fn.short:
+        return cached[1]
+    cg = CallGraph(F)
+    roots = {loop_fn.short}
+    for f in F.fns:
+        if not f.mir:
+            continue
+        for b in f.blocks:
+            ops = []
+            for st in b["stmts"]:
+                if st["k"] == "assign":
+                    ops.extend(rvalue_operands(st["rv"]))
+            if b["term"]["k"] == "call":
+                ops.extend(b["term"]["args"])
+            for o in ops:
+                if o and o.get("k") == "const" and "fn" in o:
+                    roots.add(short(o["fn"]["path"]))
+    out = set()
+    for r in roots:
+        if r not in out:
+            out |= cg.reach(r)
+    F.__dict__["_c03_in_run"] = (loop_fn.short, out)
+    return out
+
+
+def refuses_when_running(f, store_block):
+    """the store is dominated by a test `<raw pointer read from the Vm>.is_null()` on whose non-null edge it cannot be reached:
+    the entry point refuses (returns) while a program is installed"""
+    du = DefUse(f)
+    cfg = f.cfg
+    for g in cfg.dom.get(store_block, ()):
+        t = f.blocks[g]["term"]
+        if g == store_block or t["k"] != "switch":
+            continue
+        c = op_local(t["discr"])
+        neg = False
+        d = du.sole_def(c) if c is not None else None
+        while d is not None and d[2] == "assign" and d[3]["rv"]["k"] == "un" and d[3]["rv"]["op"] == "Not":
+            neg = not neg
+            c = op_local(d[3]["rv"]["x"])
+            d = du.sole_def(c) if c is not None else None
+        if d is None or d[2] != "call" or _last(d[3]["func"]) != "is_null" or d[3]["func"].get("local") or not d[3]["args"]:
+            continue
+        a = op_local(d[3]["args"][0])
+        kind, payload = du.trace_back(a) if a is not None else (None, None)
+        if kind != "place" or not any(e["k"] == "deref" for e in payload["p"]):
+            continue
+        targets = dict((v, b) for v, b in t["targets"])
+        running = targets.get(int(neg), t["otherwise"])     # is_null() == false  <=>  a program is installed
+        if store_block not in cfg.reachable_from(running, avoid={g}):
+            return True
+    return False
+
+
 def rule_b(F):
     res = []
     info = find_budget(F)
@@ -739,47 +766,55 @@ def rule_b(F):
     fname = fields[0]
     if is_vm_field:
         res.append(ok("C03.B", "C03/B/_run/budget-is-per-vm", fn.loc(info["cmp"].get("ln")), "the counter is the field Vm.%s, shared by re-entrant _run calls" % fname))
-    # who writes the field
-    writers = {}
+    # who writes the field, and what
+    cfn = info.get("cfn") or fn
+    inside = {fn.short, cfn.short}
+    if is_vm_field is None:
+        # the loop works on a copy: the wrapper that makes the copy stores it back
+        inside |= set(g.short for g in F.fns if g.mir and any(fn.short in callee_names(t["func"]) for _bi, t in mu.calls(g)))
+    in_run = functions_running_inside_the_loop(F, fn)
+    from cao.facts import CallGraph
+    starts_loop = CallGraph(F).callers_closure({fn.short})
+    writers, extra, resetters, unguarded = {}, [], [], []
     for f in F.fns:
         if not f.mir:
             continue
-        for b in f.blocks:
-            for st in b["stmts"]:
-                if st["k"] == "assign":
-                    for e in st["place"]["p"]:
-                        if e["k"] == "field" and e["name"] == fname and short(e.get("owner", "")) == "vm::Vm":
-                            writers.setdefault(f.short, st.get("ln"))
-    allowed = {fn.short, "vm::Vm::_run", "vm::Vm::run", "vm::Vm::new"}
-    cfn = info.get("cfn") or fn
-    if cfn is not fn:
-        # the summarised charging helper: its stores are the decrement (C03.D / C03.Z decide them)
-        allowed.add(cfn.short)
-    if is_vm_field is None:
-        # the loop works on a copy: the wrapper that makes the copy stores it back
-        allowed |= set(g.short for g in F.fns if g.mir and any(fn.short in callee_names(t["func"]) for _bi, t in mu.calls(g)))
-    extra = [w for w in writers if w not in allowed]
+        stores = budget_stores(f, fname)
+        if not stores:
+            continue
+        writers[f.short] = stores[0][1].get("ln")
+        if f.short in inside:
+            continue
+        stores = [x for x in stores if x[2] != "init"]
+        if not stores:
+            continue    # initialisation of a Vm the function owns (constructor)
+        if all(kind == "reset" for _bi, _st, kind in stores) and f.short not in in_run:
+            # a top-level entry point handing out a fresh budget: legitimate. It counts as *the* reset if the fresh budget is in
+            # place before the interpreter is started
+            cfg = f.cfg
+            starts = [bi for bi, t in mu.calls(f) if any(n in starts_loop for n in callee_names(t["func"]))]
+            if starts and all(any(cfg.dominates(sb, c) for sb, _st, _k in stores) for c in starts):
+                resetters.append(f)
+            if not all(refuses_when_running(f, sb) for sb, _st, _k in stores):
+                unguarded.append(f)
+            continue
+        extra.append(f.short)
     if extra:
         res.append(bad("C03.B", "C03/B/budget-writers", fn.loc(), "Vm.%s is also written by %s" % (fname, extra)))
     else:
         res.append(ok("C03.B", "C03/B/budget-writers", fn.loc(), "Vm.%s is written only by %s" % (fname, sorted(writers))))
-    # run resets it from max_instr
-    run = F.fn("vm::Vm::run")
-    reset = False
-    rdu = DefUse(run)
-    for b in run.blocks:
-        for st in b["stmts"]:
-            if st["k"] == "assign" and [e["name"] for e in st["place"]["p"] if e["k"] == "field"] == [fname]:
-                q = op_place(st["rv"].get("op", {})) if st["rv"]["k"] == "use" else None
-                if q is not None and not q["p"]:
-                    kind, payload = rdu.trace_back(q["l"])
-                    q = payload if kind == "place" else None
-                if q is not None and [e["name"] for e in q["p"] if e["k"] == "field"] == ["max_instr"]:
-                    reset = True
-    if reset:
-        res.append(ok("C03.B", "C03/B/run-resets-budget", run.loc(), "Vm::run sets %s = max_instr before interpreting" % fname))
+    # a top-level entry point resets it from max_instr
+    run = F.fn("vm::Vm::run", required=False)
+    if resetters:
+        r0 = run if run in resetters else resetters[0]
+        res.append(ok("C03.B", "C03/B/run-resets-budget", r0.loc(), "%s sets %s = max_instr before interpreting"
+                      % (", ".join("Vm::" + r.name for r in sorted(resetters, key=lambda r: r is not r0)), fname)))
     else:
-        res.append(bad("C03.B", "C03/B/run-resets-budget", run.loc(), "Vm::run does not reset %s from max_instr" % fname))
+        res.append(bad("C03.B", "C03/B/run-resets-budget", (run or fn).loc(), "Vm::run does not reset %s from max_instr" % fname))
+    for f in unguarded:
+        res.append(note("C03.B", "C03/B/%s/reset-not-refused-while-running" % f.name, f.loc(),
+                        "%s hands out a fresh budget and does not refuse when a program is already running: a host native that calls "
+                        "it in the middle of a run resets the budget of the outer run (host natives are outside the crate and not analysed)" % f.name))
     # _run must not reset it
     for g in ([fn] if cfn is fn else [fn, cfn]):
         gdu = DefUse(g)
